@@ -280,3 +280,95 @@ def arg_wiring(ctx, rule, sites, defaults=()):
                 f'{caller}: default of {key!r} is {got or "missing"}, '
                 f'documented {dflt}', construct=f'{caller}: default {key}'))
     return res
+
+
+# --------------------------------------------------------------------------
+# ARG-NAMES: an argument that is spelled like one of the callee's parameters
+# is bound to that parameter (swapped / shifted positional arguments).
+
+STAR_WIDTH = {'field': 2}       # *field is the documented (Hx, Hy) pair
+
+
+def bound_args(c, g, explicit_self=False):
+    """[(parameter name | None, argument node)] for call c to function g"""
+    params = list(g.params)
+    if explicit_self:
+        params = ['self'] + params
+    out = []
+    pos = 0
+    for a in c.args:
+        if isinstance(a, ast.Starred):
+            w = STAR_WIDTH.get(unparse(a.value))
+            if w is None:
+                return out + [(k.arg, k.value) for k in c.keywords if k.arg]
+            for j in range(w):
+                out.append((params[pos] if pos < len(params) else None,
+                            ast.Subscript(value=a.value,
+                                          slice=ast.Constant(j),
+                                          ctx=ast.Load())))
+                pos += 1
+            continue
+        out.append((params[pos] if pos < len(params) else None, a))
+        pos += 1
+    for k in c.keywords:
+        if k.arg:
+            out.append((k.arg, k.value))
+    return out
+
+
+def arg_names(ctx, rule, callee_ok, exceptions, min_sites, P=None):
+    P = P or ctx.P
+    res = Result(rule, 'an argument spelled like a parameter of the function '
+                 'it is passed to (x, self.x) is bound to that parameter: '
+                 'no swapped or shifted arguments')
+    n = 0
+    for f in P.all_funcs():
+        env = P.local_env(f)
+        for c in ast.walk(f.node):
+            if not isinstance(c, ast.Call):
+                continue
+            try:
+                r = P.resolve_call(c, env, f) or []
+            except AnalysisError:
+                continue
+            for g in r:
+                if not callee_ok(g):
+                    continue
+                explicit = isinstance(c.func, ast.Attribute) and \
+                    isinstance(c.func.value, ast.Name) and \
+                    c.func.value.id in P.classes and \
+                    g.kind == 'method' and c.args and \
+                    unparse(c.args[0]) == 'self'
+                if explicit:
+                    # Base.method(self, ...): no dynamic dispatch
+                    tgt = P.lookup(c.func.value.id, c.func.attr)
+                    if tgt is None or tgt.qual != g.qual:
+                        continue
+                res.saw(f)
+                for prm, a in bound_args(c, g, explicit):
+                    nm = a.id if isinstance(a, ast.Name) else (
+                        a.attr if isinstance(a, ast.Attribute) and
+                        isinstance(a.value, ast.Name) and
+                        a.value.id == 'self' else None)
+                    if nm is None or prm is None:
+                        continue
+                    n += 1
+                    if nm != prm and nm in g.params:
+                        if (f.qual, g.qual, prm, nm) in exceptions:
+                            res.exceptions.append(
+                                f'{f.qual} -> {g.qual}: {nm} passed as {prm}: '
+                                + exceptions[(f.qual, g.qual, prm, nm)])
+                            continue
+                        res.fail(ctx.finding(
+                            rule, f, c,
+                            f'{f.qual} passes {unparse(a)} as parameter '
+                            f'{prm!r} of {g.qual}, which also has a parameter '
+                            f'{nm!r}: arguments swapped or shifted',
+                            construct=f'{f.qual} -> {g.qual}: {nm} as {prm}'))
+                    else:
+                        res.ok(f'{f.qual} -> {g.qual}: {unparse(a)} as {prm}'
+                               if n <= 3 else None)
+    res.min_instances = min_sites
+    if n < min_sites:
+        raise AnalysisError(f'{rule}: only {n} named arguments found')
+    return res
